@@ -168,6 +168,9 @@ def run(ctx) -> RunOutput:
 
     symrun.install_log_capture()
     symrun.take_logs()
+    # run_contract is not subject to the per-run step budget that symrun.run_symbolic may have left behind in this process
+    symrun.MON.steps = 0
+    symrun.MON.step_budget = 0
     out = RunOutput()
     buf = io.StringIO()
     try:
